@@ -256,9 +256,22 @@ def render_paths(N, nodes, limit: int = 512, for_zero: bool = False, subst=None,
                         paths = nxt
                     else:
                         nxt = []
-                        for p in paths:
+                        work = list(paths)
+                        while work:
+                            p = work.pop(0)
                             parts, phs = [], []
-                            for piece in _expand(N, e, p):
+                            pieces = _expand(N, e, p)
+                            # `'==' if c else '<='` printed where c is not decided on this path: the path forks like an {% if %}
+                            ce = next((x for x in pieces if not isinstance(x, str) and isinstance(x, N.CondExpr) and x.expr2 is not None
+                                       and all(isinstance(a, N.Const) and isinstance(a.value, str) for a in (x.expr1, x.expr2))), None)
+                            if ce is not None and len(work) + len(nxt) < limit:
+                                (cs, cn) = cond_of(p, ce.test, True)
+                                (ns, nn) = cond_of(p, ce.test, False)
+                                if cs not in p.conds and ns not in p.conds:
+                                    work.insert(0, TPath(p.parts, p.conds + (ns,), p.ph, p.env, p.cnodes + (nn,)))
+                                    work.insert(0, TPath(p.parts, p.conds + (cs,), p.ph, p.env, p.cnodes + (cn,)))
+                                    continue
+                            for piece in pieces:
                                 if isinstance(piece, str):
                                     parts.append(piece)
                                 else:
